@@ -22,6 +22,7 @@ from pathlib import Path
 from . import core, lib
 from . import hookgen as g
 from . import hooklib as H
+from . import hookplace as P
 
 TRUSTED = [
     "Coq 8.16.1 kernel and its VM (vm_compute for closed facts over the generated tables and the Examples)",
@@ -285,6 +286,27 @@ def judge(sc, c: H.Case, out: core.Outcome):
             return bad("deny without any deny rule in the configuration", "deny-without-rule")
 
 
+def trace_twin_allows(sc, out, twins, limit=700):
+    """Every allow the placement sweep saw for a decoy-free payload has a legitimate origin (the decoys themselves are
+    held to their twins' answers byte for byte, so no allow can come from anywhere else)."""
+    seen = set()
+    for (text, flags, envk), stdout in twins.items():
+        if text in seen or len(seen) >= limit:
+            continue
+        items = H.parse_stdout(stdout.encode("utf-8", "surrogateescape"))
+        dec = H.any_decision(items[0][1]) if len(items) == 1 and items[0][0] == "J" else None
+        if not dec or dec[1] != "allow":
+            continue
+        seen.add(text)
+        c = H.Case(text.encode(), label="place-twin", flags=flags, env=dict(envk), user_cfg=P.CFG)
+        origin = allow_origin(sc, c, json.loads(text), dec[2])
+        out.count("place_twin_allow_origin", str(origin))
+        if origin is None:
+            H.run_cases(sc, [c])
+            out.violations.append({"kind": "protocol", "what": f"allow ({dec[2]!r}) without a legitimate origin", **H.describe(c, sc),
+                                   "signature_text": f"allow-without-origin | {c.label}"})
+
+
 def fault_effect(sc, c, out):
     """With a function made to raise, the answer is the fault-free one, or {}, or an ask - nothing else."""
     bad, good = H.parse_stdout(c.out), H.parse_stdout(c.twin.out)
@@ -308,7 +330,11 @@ def run(tier, seed, replay=None):
     sc = H.Scratch()
     hm = None
     try:
-        if replay:
+        placed = None
+        if replay and replay.get("twin_case"):
+            placed = P.replay_pair(sc, out, replay, "protocol")
+            cases = []
+        elif replay:
             cases = [H.replay_case(sc, replay)]
         else:
             cases = build_cases(sc, tier, rng)
@@ -323,6 +349,13 @@ def run(tier, seed, replay=None):
         H.run_cases(sc, cases + list(twins.values()))
         hm = H.HookModel(sc)
         xcheck = []
+        if placed is not None:
+            cases = [placed]
+        elif not replay:
+            # WHERE a host-declared field is read from: exhaustive in-process sweep + covering sample of real processes
+            place_cases, place_twins = P.run_placement(sc, out, tier, "protocol", hm=hm, events=("pre",))
+            cases = cases + place_cases
+            trace_twin_allows(sc, out, place_twins)
         for idx, c in enumerate(cases):
             if c.fault:
                 out.count("fault_effect", fault_effect(sc, c, out))
@@ -372,7 +405,11 @@ def run(tier, seed, replay=None):
         "(words, pipeline, one word, unterminated quote), cwd and MCP names of those sizes, command nesting 10..100000 (subshell, $(), "
         "brace group, if); unusable cwd (missing, relative, deleted working directory); 8 injection points x 7 exception classes "
         "(+ ConfigError) on shell, bypass and MCP paths; random objects over the routing keys with random types / plausible values / flags; unreadable / non-UTF-8 / directory config; bypass modes of every type on "
-        "shell, MCP and other tools; all verdict classes. distinct = distinct (stdin, flags, env, configs, fault, io); non-trivial = "
+        "shell, MCP and other tools; all verdict classes; field placement (harness/hookplace.py): every key the hook looks up x decoy values "
+        "(bypass modes, PostToolUse, tool names, allowed command, allowing directory) x place (tool_input, deeper in tool_input, tool_response, "
+        "other object, array, nested copy of the payload, near-miss spellings at the top level and in tool_input, duplicate member in the text) "
+        "x top-level state (own / absent / null / empty) x host (claude, gemini, cursor, mcp, other tool, claude with top-level bypass) x "
+        "forced mode, run in-process (differences confirmed by real processes) plus a pairwise-covering sample as real processes. distinct = distinct (stdin, flags, env, configs, fault, io); non-trivial = "
         "everything except the plain well-formed verdict-class and tool-name cases")
     return out
 
